@@ -5,6 +5,7 @@ import (
 	"encoding/binary"
 	"encoding/gob"
 	"fmt"
+	"math"
 	"reflect"
 	"sync"
 	"time"
@@ -1460,8 +1461,26 @@ func (t *treasure) SetExpirationTime(guardID guard.ID, expirationTime time.Time)
 		t.treasure.ExpirationTime = 0
 		return
 	}
-	t.treasure.ExpirationTime = expirationTime.UTC().UnixNano()
+	// UnixNano is only defined for instants representable as int64 nanoseconds
+	// (1677-09-21 .. 2262-04-11); outside that range it wraps around, so a
+	// far-future expiration would be stored as an already-expired one (and a
+	// very old one as a future one). Saturate instead, which keeps the instant
+	// on the correct side of every "now".
+	switch {
+	case expirationTime.After(maxExpirationTime):
+		t.treasure.ExpirationTime = math.MaxInt64
+	case expirationTime.Before(minExpirationTime):
+		t.treasure.ExpirationTime = math.MinInt64
+	default:
+		t.treasure.ExpirationTime = expirationTime.UTC().UnixNano()
+	}
 }
+
+// bounds of the instants whose UnixNano fits into an int64
+var (
+	minExpirationTime = time.Unix(0, math.MinInt64)
+	maxExpirationTime = time.Unix(0, math.MaxInt64)
+)
 
 func (t *treasure) GetExpirationTime() int64 {
 	t.mu.RLock()
